@@ -111,11 +111,20 @@ fn ops_show(ops: &[bool]) -> String {
 }
 
 /// (a) one call sequence on a REP with `peers` peers that each have queued 3 requests
-fn rep_sequence(ops: &[bool], peers: usize) -> Verdict {
+/// `junk`: one more peer has queued three ill-formed requests (a single frame without delimiter, an envelope with
+/// nothing after its delimiter, a delimiter alone): a recv that fails on one of them must leave the lock-step
+/// state exactly as it was.
+fn rep_sequence(ops: &[bool], peers: usize, junk: bool) -> Verdict {
     world::reset(world::WorldCfg { nested_env: false, yields: false, select: false, policy: 0, coop: false });
-    let conns: Vec<e3::RawConn> = (0..peers).map(|i| e3::raw_conn(&format!("req{}", i))).collect();
+    let conns: Vec<e3::RawConn> = (0..peers + junk as usize).map(|i| e3::raw_conn(&format!("req{}", i))).collect();
     for (p, c) in conns.iter().enumerate() {
         c.send(&rc::handshake("DEALER", Some(format!("C{}", p).as_bytes())));
+        if junk && p == peers {
+            c.send(&rc::encode_message(&[b"junk".to_vec()]));
+            c.send(&rc::encode_message(&[b"hop".to_vec(), vec![]]));
+            c.send(&rc::encode_message(&[vec![]]));
+            continue;
+        }
         for j in 0..3 {
             c.send(&rc::encode_message(&[vec![], format!("c{}q{}", p, j).into_bytes()]));
         }
@@ -173,16 +182,18 @@ fn rep_sequence(ops: &[bool], peers: usize) -> Verdict {
                         let f = frames_of(&m);
                         let txt = String::from_utf8_lossy(&f[0]).to_string();
                         let p = txt.as_bytes().get(1).map(|b| (b - b'0') as usize).unwrap_or(99);
-                        if f.len() != 1 || p >= conns2.len() || txt != format!("c{}q{}", p, next_req[p]) {
+                        if f.len() != 1 || p >= conns2.len() - junk as usize || txt != format!("c{}q{}", p, next_req[p]) {
                             viol2.borrow_mut().push(("rep/request-mismatch".into(), format!("call #{}: recv returned {} (next expected per peer {:?})", i, rs, next_req)));
                             return;
                         }
                         next_req[p] += 1;
                         current = Some(p);
                     }
+                    // an ill-formed request is consumed as one error; the lock-step state stays as it was
+                    Some(Err(_)) if junk => {}
                     Some(Err(e)) => viol2.borrow_mut().push(("rep/recv-failed".into(), format!("call #{}: recv with requests queued failed: {}", i, e3::err_class(&e)))),
                     None => {
-                        if next_req.iter().sum::<usize>() < 3 * conns2.len() {
+                        if next_req.iter().sum::<usize>() < 3 * (conns2.len() - junk as usize) {
                             viol2.borrow_mut().push(("rep/recv-pending-with-requests-queued".into(), format!("call #{}: recv did not complete although requests are queued", i)));
                         }
                         return;
@@ -193,7 +204,7 @@ fn rep_sequence(ops: &[bool], peers: usize) -> Verdict {
         world::wait_cond("never").await;
         drop(s);
     });
-    finish_seq(viol, obs, format!("REP with {} peers, calls {:?}", peers, ops_show(ops)))
+    finish_seq(viol, obs, format!("REP with {} peers{}, calls {:?}", peers, if junk { " and one peer that queued three ill-formed requests" } else { "" }, ops_show(ops)))
 }
 
 fn finish_seq(viol: std::rc::Rc<std::cell::RefCell<Vec<(String, String)>>>, obs: std::rc::Rc<std::cell::RefCell<Vec<String>>>, what: String) -> Verdict {
@@ -397,7 +408,8 @@ fn build(p: &Value) -> Option<zvcore::explore::Scenario> {
         "rep-seq" => {
             let o = ops(&p["ops"]);
             let n = p["peers"].as_u64()? as usize;
-            Some(std::sync::Arc::new(move || rep_sequence(&o, n)))
+            let j = p["junk"].as_bool().unwrap_or(false);
+            Some(std::sync::Arc::new(move || rep_sequence(&o, n, j)))
         }
         "rep-same-identity" => {
             let (n, pol) = (p["first_exchanges"].as_u64()? as usize, p["policy"].as_u64()? as u8);
@@ -436,11 +448,16 @@ pub fn run(tier: Tier, replay: Option<String>) -> i32 {
                     n_seq += 1;
                 }
             }
-            for peers in 1..=2usize {
-                let p = json!({"case":"rep-seq","ops":ops_show(&ops),"peers":peers});
-                let o = ops.clone();
-                jobs.push(e3::job(format!("C08/rep-seq/{}/{}", ops_show(&ops), peers), p, 0, 4, move || rep_sequence(&o, peers)));
-                n_seq += 1;
+            for peers in 0..=2usize {
+                for junk in [false, true] {
+                    if peers == 0 && !junk {
+                        continue;
+                    }
+                    let p = json!({"case":"rep-seq","ops":ops_show(&ops),"peers":peers,"junk":junk});
+                    let o = ops.clone();
+                    jobs.push(e3::job(format!("C08/rep-seq/{}/{}/{}", ops_show(&ops), peers, junk), p, 0, 4, move || rep_sequence(&o, peers, junk)));
+                    n_seq += 1;
+                }
             }
         }
     }
